@@ -1,7 +1,219 @@
-//! C04 (to be filled in)
+//! C04 — no silent failure: a failed step always yields a non-zero exit
+
 use super::*;
-pub fn run(_ctx: &Ctx) -> Report {
-    let mut r = Report::new("model_checking", "not implemented");
-    r.machinery_errors.push("C04 not implemented yet".into());
-    r
+use crate::explore::{explore, sites, Judge};
+use crate::scen::{Entry, Kind};
+use crate::sup::{Action, Ev, Fault};
+use std::sync::Arc;
+
+pub fn tree_src() -> Vec<Entry> {
+    vec![
+        Entry::dir("src"),
+        Entry::file("src/big", "0123456789ab").mode(0o640).mtime(1_300_000_000, 11),
+        Entry::file("src/small", "xy").mode(0o755).mtime(1_300_000_001, 22),
+        Entry::dir("src/d"),
+        Entry::file("src/d/n", "nested").mode(0o600).mtime(1_300_000_002, 33),
+        Entry::link("src/l", "small"),
+        Entry::new("src/p", Kind::Fifo).mode(0o644),
+    ]
+}
+
+pub fn scenarios(quick: bool) -> Vec<Scenario> {
+    let mut v = vec![];
+    for d in drivers() {
+        for w in if quick { vec![2] } else { vec![1, 2] } {
+            let ws = w.to_string();
+            v.push(Scenario::new(&format!("C04-fresh-{}-w{}", d, w), tree_src(), &["-r", "--fsync", "--driver", d, "-w", &ws, "--block-size", "4", "src", "dst"]));
+            let mut t = tree_src();
+            t.extend(vec![
+                Entry::dir("dst"),
+                Entry::file("dst/big", "OLDBIG-OLDBIG-OLDBIG").mode(0o600).mtime(1_200_000_000, 1),
+                Entry::file("dst/big.~2~", "older").mtime(1_100_000_000, 2),
+                Entry::file("dst/keep", "bystander").mtime(1_200_000_002, 3),
+                Entry::dir("dst/d"),
+                Entry::file("dst/d/n", "old nested").mtime(1_200_000_003, 4),
+            ]);
+            v.push(Scenario::new(&format!("C04-populated-{}-w{}", d, w), t, &["-r", "-T", "--fsync", "--backup", "numbered", "--driver", d, "-w", &ws, "--block-size", "4", "src", "dst"]));
+        }
+    }
+    v
+}
+
+/// errnos injected per call class (DESIGN 5, C04); None = the property tolerates failures there
+pub fn errnos_for(e: &Ev) -> Vec<i32> {
+    use libc::*;
+    match e.name.as_str() {
+        "openat" | "open" | "creat" | "openat2" => {
+            let flags = if e.name == "open" { e.a[1] } else { e.a[2] } as i32;
+            if flags & (O_CREAT | O_WRONLY | O_RDWR) != 0 {
+                vec![EACCES, EMFILE, EROFS]
+            } else {
+                vec![EACCES, EMFILE]
+            }
+        }
+        "statx" | "newfstatat" | "fstat" | "stat" | "lstat" => vec![EACCES, EIO],
+        "getdents64" => vec![EIO],
+        "mkdir" | "mkdirat" => vec![EACCES, ENOSPC, EROFS],
+        "symlink" | "symlinkat" => vec![EEXIST, EACCES],
+        "mknod" | "mknodat" => vec![EPERM],
+        "rename" | "renameat" | "renameat2" => vec![EACCES],
+        "unlink" | "unlinkat" => vec![EACCES],
+        "ftruncate" | "fallocate" => vec![ENOSPC, EIO],
+        "copy_file_range" | "sendfile" => vec![EIO],
+        "read" | "pread64" => vec![EIO],
+        "write" | "pwrite64" => vec![ENOSPC, EIO],
+        "fchmod" | "fchmodat" | "chmod" => vec![EPERM],
+        "utimensat" => vec![EPERM],
+        "fsync" | "fdatasync" => vec![EIO],
+        "ioctl:FIEMAP" | "ioctl:FICLONE" => vec![EIO],
+        "readlink" | "readlinkat" => vec![EACCES, EIO],
+        "lseek" => vec![EIO],
+        // xattr and ownership failures are documented as warnings
+        _ => vec![],
+    }
+}
+
+pub fn judge(w: &Worker, scen: &Scenario, ex: &Exec) -> Judgement {
+    let exp = model::expect(scen);
+    let mut v = vec![];
+    let hit = !ex.res.hit_sites.is_empty();
+    if exit0(ex) {
+        let failed = ex.res.hit_sites.join(", ");
+        if ex.res.hit_sites.iter().any(|h| h.starts_with("fsync") || h.starts_with("fdatasync")) {
+            v.push(format!("exit 0 although the requested fsync failed ({})", failed));
+        }
+        for m in judge_exit0_tree(w, scen, ex, &exp, Level::Meta) {
+            v.push(if hit { format!("{} [after injected failure of {}]", m, failed) } else { m });
+        }
+    }
+    simple_judge(v, ex, hit || exit0(ex))
+}
+
+/// jobs: one execution per (site, errno) of each recording run
+pub fn fault_jobs(ctx: &Ctx, scens: &[Scenario]) -> (Vec<(Arc<Scenario>, RunSpec, usize)>, usize, Vec<String>) {
+    let w = Worker::new(48, &ctx.pool.bins);
+    let mut jobs = vec![];
+    let mut nsites = 0;
+    let mut errs = vec![];
+    for s in scens {
+        let sa = Arc::new(s.clone());
+        for base in base_specs() {
+            let rec = match w.run(s, &base) {
+                Ok(r) => r,
+                Err(e) => {
+                    errs.push(format!("recording run of {}: {}", s.name, e));
+                    continue;
+                }
+            };
+            // the unfaulted run itself
+            jobs.push((sa.clone(), base.clone(), 0));
+            for e in rec.events.iter() {
+                let _ = e;
+            }
+            let all = sites(&rec, &|_| true);
+            // per-site errno list needs the event: recompute alongside
+            let mut cnt: std::collections::BTreeMap<(usize, String), usize> = std::collections::BTreeMap::new();
+            for e in &rec.events {
+                if matches!(e.name.as_str(), "SPAWN" | "DEAD" | "BLOCK" | "WAKE" | "MARK" | "exit_group" | "exit" | "clone" | "clone3") {
+                    continue;
+                }
+                let c = cnt.entry((e.th, e.name.clone())).or_insert(0);
+                *c += 1;
+                let errnos = errnos_for(e);
+                if errnos.is_empty() {
+                    continue;
+                }
+                nsites += 1;
+                for en in errnos {
+                    let mut sp = base.clone();
+                    sp.faults.push(Fault { call: e.name.clone(), thread: Some(rec.threads[e.th].clone()), nth: Some(*c), path_contains: None, action: Action::Errno(en) });
+                    jobs.push((sa.clone(), sp, 0));
+                }
+            }
+            let _ = all;
+        }
+    }
+    (jobs, nsites, errs)
+}
+
+/// every single fault of the site list, optionally with scheduling deviations on top; used by C03/C04/C07
+pub fn fault_sweep(ctx: &Ctx, judge: Judge, devs_on_top: usize) -> (Stats, usize) {
+    let scens = scenarios(ctx.quick());
+    let (mut jobs, nsites, errs) = fault_jobs(ctx, &scens);
+    if devs_on_top > 0 {
+        // deviations on top only for the w=2 fresh-destination scenarios (cost)
+        for j in jobs.iter_mut() {
+            if j.0.name.contains("fresh") && j.0.name.ends_with("w2") {
+                j.2 = devs_on_top;
+            }
+        }
+    }
+    let mut st = explore(&ctx.pool, jobs, judge);
+    st.engine_errors.extend(errs);
+    (st, nsites)
+}
+
+/// second faults at sites after the first one, read off the run that contains the first
+fn pair_jobs(ctx: &Ctx, firsts: Vec<(Arc<Scenario>, RunSpec, usize)>) -> Stats {
+    let j: Judge = &judge;
+    let pool = &ctx.pool;
+    let accs = crate::explore::par_work(pool, firsts, Stats::default, |w, (scen, spec, depth): (Arc<Scenario>, RunSpec, usize), more, st: &mut Stats| {
+        if pool.expired() {
+            st.capped = true;
+            return;
+        }
+        if let Some(ex) = crate::explore::run_one(w, &scen, &spec, j, st) {
+            if depth == 0 && spec.faults.len() == 1 {
+                // find where the first fault fired, enumerate later sites
+                let first_pos = ex.res.events.iter().position(|e| e.inj != 0);
+                if let Some(fp) = first_pos {
+                    let mut cnt: std::collections::BTreeMap<(usize, String), usize> = std::collections::BTreeMap::new();
+                    for (k, e) in ex.res.events.iter().enumerate() {
+                        if matches!(e.name.as_str(), "SPAWN" | "DEAD" | "BLOCK" | "WAKE" | "MARK" | "exit_group" | "exit" | "clone" | "clone3") {
+                            continue;
+                        }
+                        let c = cnt.entry((e.th, e.name.clone())).or_insert(0);
+                        *c += 1;
+                        if k <= fp {
+                            continue;
+                        }
+                        for en in errnos_for(e) {
+                            let mut sp = spec.clone();
+                            sp.faults.push(Fault { call: e.name.clone(), thread: Some(ex.res.threads[e.th].clone()), nth: Some(*c), path_contains: None, action: Action::Errno(en) });
+                            more.push((scen.clone(), sp, 1));
+                        }
+                    }
+                }
+            }
+        }
+    });
+    let mut total = Stats::default();
+    for a in accs {
+        total.merge(a);
+    }
+    total
+}
+
+pub fn run(ctx: &Ctx) -> Report {
+    let mut rep = Report::new(
+        "fault_enumeration",
+        "a recording run under each base policy lists every visible system call (site = thread path id, call, per-thread ordinal); one execution of the real binary per (site, errno) with the errno classes of DESIGN C04; thorough adds every ordered pair of faults and every single fault x one scheduling deviation; oracle: exit != 0, or the final sandbox equals the reference tree incl. mode/mtime (and no fsync failed); non-trivial = the injected failure was reached, counted per distinct trace",
+    );
+    let j: Judge = &judge;
+    let (st, nsites) = fault_sweep(ctx, j, 0);
+    rep.part("single faults", st, serde_json::json!({"sites": nsites, "scenarios": scenarios(ctx.quick()).iter().map(|s| s.name.clone()).collect::<Vec<_>>()}));
+    if !ctx.quick() {
+        let (jobs, _, _) = fault_jobs(ctx, &scenarios(false));
+        let firsts: Vec<_> = jobs.into_iter().filter(|j| j.1.faults.len() == 1).collect();
+        let n = firsts.len();
+        let st = pair_jobs(ctx, firsts);
+        rep.part("ordered pairs of faults", st, serde_json::json!({"first_faults": n}));
+        let (st, _) = fault_sweep(ctx, j, 1);
+        rep.part("single faults x one scheduling deviation (fresh destination, w=2)", st, serde_json::json!({"d": 1}));
+    }
+    rep.assumptions = vec![
+        "faults are answered by the supervisor without executing the call (-errno); xattr and fchown failures are excluded because the property tolerates them".into(),
+        "sites are those of the base-policy executions (P0, P1); other schedules issue the same calls in another order".into(),
+    ];
+    rep
 }
